@@ -27,15 +27,22 @@ VARIABLES store,    \* committed value [ver, owner, phase, fins, toks]; ver = 0 
           l, tid, bad
 tvars == <<store, inc, ndestroy, calls, ctxs, l, tid, bad>>
 
-Absent == [ver |-> 0, owner |-> "", phase |-> "running", fins |-> {}, toks |-> {}]
-AbsV(j) == [ver |-> j.ver, owner |-> j.owner, phase |-> j.phase, fins |-> ToSet(j.fins), toks |-> ToSet(j.toks)]
+(* cnt: the token mutators also count their applications in the value (they are not idempotent), so that a      *)
+(* mutation applied twice on the way to one successful write is visible                                            *)
+Absent == [ver |-> 0, owner |-> "", phase |-> "running", fins |-> {}, toks |-> {}, cnt |-> 0]
+AbsV(j) == [ver |-> j.ver, owner |-> j.owner, phase |-> j.phase, fins |-> ToSet(j.fins), toks |-> ToSet(j.toks), cnt |-> j.cnt]
 Strip(v) == [v EXCEPT !.ver = 0]
+NoCnt(v) == [v EXCEPT !.ver = 0, !.cnt = 0]
+(* how a successful write differs from the mutation applied once on top of the current value *)
+HowOff(exp, v, aba) ==
+  IF NoCnt(exp) = NoCnt(v) THEN (IF v.cnt > exp.cnt THEN "applied-twice" ELSE "mutation-lost")
+  ELSE IF aba THEN "rmw-not-on-current-aba" ELSE "rmw-not-on-current"
 Empty == [x \in {} |-> 0]
 Put(f, k, v) == [x \in DOMAIN f \cup {k} |-> IF x = k THEN v ELSE f[x]]
 Del(f, k)    == [x \in DOMAIN f \ {k} |-> f[x]]
 
 Mut(c, v) ==
-  CASE c.h \in {"uwc", "modify"} -> [v EXCEPT !.toks = @ \cup {c.tok}]
+  CASE c.h \in {"uwc", "modify"} -> [v EXCEPT !.toks = @ \cup {c.tok}, !.cnt = @ + 1]
     [] c.h = "addfin"   -> [v EXCEPT !.fins = @ \cup {c.fin}]
     [] c.h = "remfin"   -> [v EXCEPT !.fins = @ \ {c.fin}]
     [] c.h \in {"teardown", "tad"} -> [v EXCEPT !.phase = "tearingDown"]
@@ -96,8 +103,7 @@ Op(e) ==
          ELSE IF store.ver = 0 \/ v.ver # store.ver + 1 THEN Reject("update-version", store, v)
          ELSE IF IsRmw(r.c.h) \/ r.c.h = "tad"
               THEN IF Strip(v) # Strip(Mut(r.c, store))
-                   THEN Reject(IF r.getInc # inc THEN "rmw-not-on-current-aba" ELSE "rmw-not-on-current",
-                               Mut(r.c, store), v)
+                   THEN Reject(HowOff(Mut(r.c, store), v, r.getInc # inc), Mut(r.c, store), v)
                    ELSE /\ store' = v
                         /\ calls' = Observe([calls EXCEPT ![e.a].nw = @ + 1, ![e.a].lastWrite = v], [t |-> "updated", v |-> v])
                         /\ ctxs' = ObserveCtx(ctxs, [t |-> "updated", v |-> v])
@@ -108,7 +114,8 @@ Op(e) ==
          THEN UNCHANGED <<store, inc, ndestroy, calls, ctxs>> /\ Keep
          ELSE IF store.ver # 0 \/ v.ver # 1 THEN Reject("create-over-existing", store, v)
          ELSE IF r.c.h = "modify" /\ Strip(v) # Strip(Mut(r.c, [Absent EXCEPT !.owner = r.c.owner]))
-              THEN Reject("modify-create-content", Mut(r.c, [Absent EXCEPT !.owner = r.c.owner]), v)
+              THEN Reject(IF NoCnt(v) = NoCnt(Mut(r.c, [Absent EXCEPT !.owner = r.c.owner])) THEN "applied-twice" ELSE "modify-create-content",
+                          Mut(r.c, [Absent EXCEPT !.owner = r.c.owner]), v)
          ELSE /\ store' = v /\ inc' = inc + 1
               /\ calls' = Observe([calls EXCEPT ![e.a].nw = @ + 1, ![e.a].lastWrite = v], [t |-> "created", v |-> v])
               /\ ctxs' = ObserveCtx(ctxs, [t |-> "created", v |-> v])
